@@ -6,7 +6,7 @@ ROOT = os.path.dirname(os.path.dirname(os.path.abspath(__file__)))
 # id -> (engine, category, technique, level text, level note, design ref)
 CHECKS = {
  "C17": ("vh-parsers", "exploration",
-         "proptest generator family (empty, 1-3 chars, exact length +-2 around each parser's fixed offsets, very long, odd / non-hex, non-UTF-8, boundary numbers, structured edits of really-written files) against every untrusted-input parser under catch_unwind with overflow checks on, round trips where a formatter exists, small exhaustive enumerations (all u16 ports, all text lengths <= 400, all <= 2-byte record values), and (thorough) coverage-guided libFuzzer targets per parser family",
+         "proptest generator family (empty, 1-3 chars, exact length +-2 around each parser's fixed offsets, very long, odd / non-hex, non-UTF-8, boundary numbers, structured edits of really-written files) against every untrusted-input parser under catch_unwind with overflow checks on, round trips where a formatter exists, small exhaustive enumerations (all u16 ports, all text lengths <= 400, all <= 2-byte record values), record files with arbitrary content planted in a real node store and loaded by a restart (child process in vh-store), and (thorough) coverage-guided libFuzzer targets per parser family",
          "No panic / overflow and parse(format(v)) == v held on ~0.54 M (quick) to several million (thorough) generated and enumerated inputs per run for hex addresses, data-map chunks, wallet key files, port ranges, amounts, multiaddresses, bootstrap cache files, node registry files and record bytes; 13 seeded parser weakenings are each caught in the quick tier. Exploration: inputs are sampled, the named finite sub-spaces are enumerated completely.",
          "Accept/reject decisions are not judged except canonical port spellings; libp2p / serde / rmp trusted for their decisions (their panics would still be reported); the ant-cli wallet module is compiled into the harness by #[path] since it lives in a binary crate.",
          "DESIGN.md §3 C17"),
@@ -16,7 +16,7 @@ CHECKS = {
          "FakeOS is the trusted base (the real OS service manager and RPC client are below the seam); the cmd/node.rs glue is replicated by hand in both the CLI and the daemon style; crash staleness is exempt until the next effective Ok operation on that service.",
          "DESIGN.md §3 C19"),
  "C20": ("vh-mgmt", "exploration",
-         "proptest differential: generated combinations of every installable option -> real add_node over FakeOS captures the install ServiceInstallCtx, real ServiceManager::upgrade captures the re-install ctx; both argument lists are fed to the real antnode binary (built with the option-dump hook) and the parsed-option dumps are compared with each other and with the intended configuration; thorough adds all 2^14 presence patterns of the optional options",
+         "proptest differential: generated combinations of every installable option -> real add_node over FakeOS captures the install ServiceInstallCtx, real ServiceManager::upgrade captures the re-install ctx; both argument lists are fed to the real antnode binary (built with the option-dump hook) and the parsed-option dumps are compared with each other and with the intended configuration, and a second hook reports the protocol identifiers the node is about to start with; optionally another add (without --env) runs before the upgrade; thorough adds all 2^14 presence patterns of the optional options",
          "Generated option combinations (custom EVM, ports, IPs, peers arguments, log settings, owner, home-network/UPnP, user mode, environment, paths with spaces): install and upgrade definitions agree in program, user, label, working dir and (flag,value) multiset, the real antnode accepts both and interprets them identically and as intended. Held-on-N-cases assurance; five seeded flag regressions are caught in the quick tier.",
          "Nothing below the ServiceControl seam (unit-file quoting) is tested; generators respect antctl's own clap rules; requested port 65535 is left to C17; the hooked antnode is built into harness/target-antnode by the check itself.",
          "DESIGN.md §3 C20"),
@@ -31,27 +31,27 @@ CHECKS = {
          "Authenticity recomputed in the harness (owner key + BLS over counter||SHA3(data)); reads that end in an error are always acceptable; 'received' = delivered before the query completed.",
          "DESIGN.md §3 C15"),
  "C12": ("vh-protocol", "exploration",
-         "proptest round-trip of every record kind and every request/response variant through the repository's msgpack and CBOR codecs, byte-exact differential against 72 frozen goldens in both directions, exhaustive single mutations of every golden, generated structural byte mutations, and (thorough) libFuzzer targets carrying the same oracle in-target",
+         "proptest round-trip of every record kind and every request/response variant through the repository's msgpack and CBOR codecs, byte-exact differential against 72 frozen goldens in both directions, exhaustive single mutations of every golden, generated structural byte mutations (incl. wider MessagePack forms of the tag), encodes that follow a failed encode on the same thread, and (thorough) libFuzzer targets carrying the same oracle in-target",
          "Round-trip, fixed-size/fixed-number tag, golden, forged-chunk-address, no-panic and decode-reencode laws held on ~2.1 M (quick) to 60 M+ (thorough) generated inputs plus exhaustive sub-enumerations (all 256 tags, every truncation offset / bit flip / tag rewrite of each golden); changes to a tag number, field order, variant name, skipped field, serialised chunk address or header bounds check are each detected in the quick tier.",
          "Goldens are trusted as captured from the pinned tree; messages use serde via cbor4ii as libp2p's request_response::cbor codec does, codec framing is below the seam; a non-canonical 3-byte header form accepted by from_record is an explicit either-zone.",
          "DESIGN.md §3 C12"),
  "C13": ("vh-protocol", "exploration",
-         "proptest over honestly signed quotes with tracked single- and multi-field mutations judged by a symbolic signer/fields oracle, proof-of-payment truth tables over proofs of 0-5 quotes, wall-clock expiry with a guard band, and historical-consistency pairs",
+         "proptest over honestly signed quotes with tracked single- and multi-field mutations judged by a symbolic signer/fields oracle, proof-of-payment truth tables over proofs of 0-5 quotes, wall-clock expiry with a guard band, historical-consistency pairs, and arrival orders of quotes delivered to the real swarm driver's per-peer quote history (child process in vh-store)",
          "The verification truth table (quote verifies iff carried key is the claimed node's and the signature covers exactly the current fields; proof verifies iff verifier is payee and all quotes verify; expired iff older than the window or future-dated; regressing later quote flagged) held on 0.9 M (quick) to 17 M (thorough) cases covering every mutation and composition class; eight seeded weakenings are detected in the quick tier.",
          "ed25519 unforgeability assumed; +-5 s around both expiry boundaries, sub-second timestamp changes and key-encoding aliases are not asserted; the converse (honest quote verifies) only for shapes a real client produces.",
          "DESIGN.md §3 C13"),
  "C07": ("vh-node", "exploration",
-         "stateful proptest histories of deliveries (paid upload / unpaid update / replicated copy) of scratchpads, transactions and registers for one owner with generated counters, signers, validity and keys against the real node; neighbouring deliveries optionally run concurrently under a generated command schedule; sequential model from the statement, overlapping pairs judged against both serial orders",
+         "stateful proptest histories of deliveries (paid upload / unpaid update / replicated copy) of scratchpads, transactions and registers for one owner with generated counters, signers, validity and keys against the real node; neighbouring deliveries optionally run concurrently under a generated command schedule; sequential model from the statement, overlapping pairs judged against both serial orders; deliveries that arrive before the previous write has been acknowledged; deliveries of another kind under the same record key",
          "Model-based checking after every delivery: stored scratchpad is owner-signed (independent BLS check) and its counter never decreases and equals the highest eligible one; transaction set / register operations equal the union of eligible valid deliveries; nothing invalid or foreign is stored; overlapping validations must be serialisable. Held-on-N-histories assurance.",
          "Harness-owned interleaving at command granularity on one thread; payments valid by construction; a register delivery with a non-writer op is rejected as a whole.",
          "DESIGN.md §3 C07"),
  "C09": ("vh-node", "exploration",
-         "proptest cases over a 2-3 node ClusterSim of real nodes: generated initial store contents (missing / diverging versions), rounds of interval replication with every message delivered in a generated order through the harness transport; convergence + advertisement-completeness + non-neighbour oracle",
+         "proptest cases over a 2-4 node ClusterSim of real nodes: generated initial store contents (missing / diverging versions), rounds of interval replication with every message delivered in a generated order through the harness transport; convergence (judged at the fixpoint of the rounds) + advertisement-completeness + non-neighbour oracle (strangers, known-but-far peers, former replication targets); forced fetches; advertisers with a responsible range; a full node whose farthest record is the diverged one",
          "After generated exchanges: every chunk held anywhere is held byte-identically by all neighbours, every node's list advertised every record it held and went to every neighbour, lists from strangers / self trigger nothing, mutable records converge to union / highest counter (known finding excluded by signature). Held-on-N-cases assurance.",
-         "All nodes are mutual closest peers with spare capacity and unrestricted range; 'enough rounds' = 2-4 full rounds; libp2p request/response is replaced by the harness transport.",
+         "All nodes are mutual closest peers with spare capacity and unrestricted range; 'enough rounds' = the generated 2-6 rounds and then further rounds while any store still changes (fixpoint); libp2p request/response is replaced by the harness transport.",
          "DESIGN.md §3 C09"),
  "C06": ("vh-registers", "exploration",
-         "stateful proptest over real SignedRegister/RegisterCrdt replicas: generated permission settings, op pools (authorised, unauthorised, forged, oversized, other-register, chained, dangling, hash-twin) and delivery/merge schedules with duplication and partitions, incl. a near-limit mode crossing the 1024-entry bound; oracle = acceptance predicate + set-union model + merge laws + verify()-closure + read-order independence",
+         "stateful proptest over real SignedRegister/RegisterCrdt replicas: generated permission settings, op pools (authorised, unauthorised, forged incl. replayed signatures, oversized, other-register, chained, dangling, hash-twin, re-signed copies) and delivery/merge schedules with duplication and partitions, incl. a near-limit mode crossing the 1024-entry bound; oracle = acceptance predicate + set-union model + merge laws + verify()-closure + read-order independence",
          "Generated schedules against a model computed from the op specification: acceptance iff authorised/validly signed/within size for this register, merge commutative/associative/idempotent, equal accepted sets give equal ops and reads in any application order, every reachable state passes verify() on the other replicas. Held-on-N-cases assurance; 8 seeded mutations caught.",
          "BLS (blsttc), crdts and rmp-serde mirror construction trusted; either-zones: forged signature on an open register, a merge refused for exceeding the entry limit.",
          "DESIGN.md §3 C06"),
@@ -61,17 +61,17 @@ CHECKS = {
          "Threads stand in for processes; expiry judged with a 300 s guard band; where a limit is exceeded everything of that peer is an either-zone; harness JSON reader and tmpfs/ext4 rename semantics trusted.",
          "DESIGN.md §3 C18"),
  "C03": ("vh-node", "exploration",
-         "proptest cases (record kind x prior content x proof of 3 quotes with six payment conditions toggled by construction) against the real Node validation code over a hand-stepped SwarmDriver with a JSON-RPC payment-contract stub; store-iff-all-conditions oracle with whole-store snapshots",
-         "Truth-table style generated search: every combination class of the six conditions (all true / exactly one false / several false) for every record kind and prior; stored-new implies all conditions, any false implies rejected and store byte-identical, all true implies stored with the contract asked about every quote; unpaid uploads only as updates. Held-on-N-cases assurance.",
+         "proptest cases (record kind x prior content x proof of 3 quotes with six payment conditions toggled by construction) against the real Node validation code over a hand-stepped SwarmDriver with a JSON-RPC payment-contract stub; stored-only-if-all-conditions oracle with whole-store snapshots; plus sequences of 2-4 uploads to one node (re-sent quotes, contract verdicts and reachability per step, pruned records, evicted payees)",
+         "Truth-table style generated search: every combination class of the six conditions (all true / exactly one false / several false) for every record kind and prior; stored-new implies all conditions, any false (incl. the contract being unreachable at transport or RPC level) implies rejected and store byte-identical; in sequences every new-data upload is judged on its own proof; unpaid uploads only as updates. The converse (a perfect upload is stored) is a harness precondition, not asserted. Held-on-N-cases assurance.",
          "The Solidity contract is replaced by the stub's verdict table; expiry faults are >= 60 s beyond the boundary; proofs carry 3 quotes (contract arity).",
          "DESIGN.md §3 C03"),
  "C04": ("vh-node", "exploration",
          "proptest cases (kind x path: kad-store put->UnverifiedRecord->validation / unpaid update / replicated copy x matched or adversarially mismatched key x prior content x malformed shapes) against the real node; oracle = independent SHA3-256 address derivation over whole-store snapshots",
-         "Generated search over (key, content) pairs on every acceptance path: nothing is ever held under a key its decoded content does not derive; a record under a foreign key is rejected and the store is byte-identical; valid matched records are stored; network records are unreadable before validation; oversized/unparseable ones are refused. Held-on-N-cases assurance.",
+         "Generated search over (key, content) pairs on every acceptance path: nothing is ever held under a key its decoded content does not derive; a record under a foreign key is rejected and the store is byte-identical; valid matched records are stored; network records are unreadable before validation; oversized (incl. exactly at the limit) / unparseable ones are refused; a scratchpad or register not signed by the owner its key derives from is refused. Held-on-N-cases assurance.",
          "Address derivation recomputed with tiny-keccak; scratchpad and transaction of one owner legitimately share an address; payment valid throughout (stub).",
          "DESIGN.md §3 C04"),
  "C01": ("vh-store", "exploration",
-         "stateful proptest histories (put/overwrite/remove/get/list + generated delivery order/delay of completion notifications + injected write faults) interpreted against the real SwarmDriver/NodeRecordStore and a per-key reference model; shrinking to replay file",
+         "stateful proptest histories (put/overwrite/remove/get/list + generated delivery order/delay of completion notifications + injected write faults with retries + store capacities small enough to prune) interpreted against the real SwarmDriver/NodeRecordStore and a per-key reference model; shrinking to replay file",
          "Generated-history search against a reference map: every read must return bytes handed in for that key; after settling, the latest accepted write per key is read back byte-exact, listed with the right type and on disk, removed keys are gone. The harness owns the schedule at the granularity the statement quantifies over (completion order of different-key tasks = order of the buffered completion notifications). Held-on-N-histories assurance.",
          "Single-threaded stepping through the verif-hooks pass-throughs; same-key task order is FIFO (excluded by the statement); keys whose write the harness made fail are only checked for the safety half.",
          "DESIGN.md §3 C01"),
@@ -96,7 +96,7 @@ CHECKS = {
          "Distances by the harness' own SHA-256/XOR metric; overwrite of a held key at capacity and distance == range are explicit either-zones.",
          "DESIGN.md §3 C10"),
  "C11": ("vh-store", "exploration",
-         "proptest address sets of every kind incl. constructed hash-prefix near-collisions vs an independent SHA-256/XOR big-endian reference; differential check of sort_peers_by_*, replicate candidates, closest-K and close-group selection on a real driver with generated routing table",
+         "proptest address sets of every kind incl. constructed hash-prefix near-collisions vs an independent SHA-256/XOR big-endian reference; differential check of sort_peers_by_*, replicate candidates, closest-K and close-group selection on a real driver with generated routing table; the replication fetcher's closest-first order and full-node bound on the real fetcher; the store's farthest / eviction / in-range decisions over C10's histories",
          "Differential testing against an independently written metric: numeric distance, symmetry, zero-iff-equal, typed vs raw-key forms, and every closeness decision reachable in ant-networking order/filter exactly as the reference integer does. Held-on-N-cases assurance.",
          "Exact distance ties between different peers are not generated; the store/fetcher range filters are cross-checked inside C10/C08 with the same reference.",
          "DESIGN.md §3 C11"),
